@@ -529,6 +529,43 @@ theorem templated_row_fails {cf : Conf} {ctx c : Ctx} {cells : List (Str × Src)
   simp only [parseRow, List.mem_map]
   exact ⟨cell, hm, by simpa using he⟩
 
+/-- **delivered_no_blank (row level)**: if every cell of a templated row was delivered (no
+error), then no cell of the row reaches a reference that its context does not define — in
+particular nothing was replaced by nothing.  (The sheet-level statement — which context a row
+of a loop / an inserted template / a bulk-created flow is instantiated in — has no Lean model;
+it is checked on the real compiler for every cell of every explored sheet, see the check.) -/
+theorem delivered_no_blank_row {cf : Conf} {ctx : Ctx} {cells : List (Str × Src)}
+    (hcf : cf = Conf.repo)
+    (hok : ∀ r ∈ parseRow cf false ctx cells, ∃ o, r = .ok o) :
+    ∀ cell ∈ cells, cell.2.show = strip pyWs cell.1 →
+      ∀ c p, SrcReached ctx cell.2 c p → Defined c p := by
+  intro cell hm hshow c p hr
+  apply Decidable.byContradiction
+  intro hu
+  obtain ⟨e, he⟩ := templated_row_fails hcf hm hshow hr hu
+  obtain ⟨o, ho⟩ := hok _ he
+  cases ho
+
+/-- non-vacuity: a row of two cells, both delivered -/
+example : ∀ r ∈ parseRow Conf.repo false [("a".toList, .str "A".toList)]
+    [("{{a}}".toList, .text (.var ⟨"a".toList, []⟩)), ("x".toList, .text (.lit "x".toList))],
+    r = .ok (.text "A".toList) ∨ r = .ok (.text "x".toList) := by
+  have h1 : strip pyWs "{{a}}".toList = "{{a}}".toList := by decide
+  have h2 : strip pyWs "x".toList = "x".toList := by decide
+  intro r hr
+  simp only [parseRow, List.map, List.mem_cons, List.not_mem_nil, or_false] at hr
+  rcases hr with rfl | rfl
+  · left
+    have : List.contains "{{a}}".toList shortcutChar = true := by decide
+    have hn : isNativeCell "{{a}}".toList = false := by decide
+    simp only [parseAsString, h1, this, hn, Bool.not_true, Bool.and_false, Bool.false_eq_true, if_false]
+    rfl
+  · right
+    have : List.contains "x".toList shortcutChar = false := by decide
+    have hn : isNativeCell "x".toList = false := by decide
+    simp only [parseAsString, h2, this, hn, Bool.not_false, Bool.and_true, Bool.false_eq_true, if_false]
+    rfl
+
 /-- the empty-context shortcut returns exactly what rendering returns (text cells) -/
 theorem shortcut_is_render {cf : Conf} {value : Str} {t : Tmpl}
     (hshow : t.show = strip pyWs value) (hnb : (strip pyWs value).contains shortcutChar = false) :
